@@ -150,8 +150,8 @@ def gen(rng, index, tier):
 
 
 def fixed_cases(tier):
-    # D1 replay (DESIGN 7): proportional on B only
-    return [{"kind": "equiv", "s1": {"b": [0, 1, 1, 0, 1, 1], "t": [1, 1, 0, 1, 1, 0]},
+    # the preset schemes of the library vs the constants of the model; D1 replay (DESIGN 7): proportional on B only
+    return [{"kind": "presets"}, {"kind": "equiv", "s1": {"b": [0, 1, 1, 0, 1, 1], "t": [1, 1, 0, 1, 1, 0]},
              "s2": {"b": [0, 1, 1, 0, 1, 1], "t": [2, 2, 0, 3, 3, 5]}, "scale": 1, "var": "fixed-D1"}]
 
 
@@ -202,6 +202,16 @@ def impl(case):
     from corankco.scoringscheme import ScoringScheme
     kind = case["kind"]
     try:
+        if kind == "presets":
+            ps = [ScoringScheme.get_unifying_scoring_scheme(), ScoringScheme.get_pseudodistance_scoring_scheme(),
+                  ScoringScheme.get_induced_measure_scoring_scheme(), ScoringScheme.get_extended_measure_scoring_scheme(),
+                  ScoringScheme.get_unifying_scoring_scheme_p(0.5), ScoringScheme.get_induced_measure_scoring_scheme_p(0.5)]
+            from corankco.algorithms.parcons.parcons import ParCons
+            from corankco.algorithms.exact.exactalgorithmcplex import ExactAlgorithmCplex
+            return {"presets": [[[lib.to_int(x, 2) for x in p.penalty_vectors[0]], [lib.to_int(x, 2) for x in p.penalty_vectors[1]]]
+                                for p in ps],
+                    "nicks": [p.get_nickname() for p in ps[:4]],
+                    "constants": [ParCons.DEFAULT_BOUND_FOR_EXACT, ExactAlgorithmCplex._PRECISION_THRESHOLD]}
         if kind == "new":
             obj = _build(case["tree"], case["scale"])
             before = copy.deepcopy(obj)
@@ -249,6 +259,8 @@ def ops(case, out):
     kind = case["kind"]
     if "err" in out:
         return []
+    if kind == "presets":
+        return [("c19.presets", [])]
     if kind == "new":
         return [("c19.new", [case["scale"], _proto(case["tree"])])]
     if kind == "mul":
@@ -277,7 +289,15 @@ def judge(case, out, answers):
     diff = []
     holds = True
     nontrivial = True
-    if kind == "new":
+    if kind == "presets":
+        if answers[0] != out["presets"]:
+            diff.append("preset schemes: model %s impl %s" % (answers[0], out["presets"]))
+        if out["nicks"] != ["UKSP", "GPDP", "IGKS", "EKS"]:
+            holds = False
+            diff.append("nicknames of the presets: %s" % out["nicks"])
+        if out["constants"] != [80, 0.001]:
+            diff.append("constants (default exact bound, precision threshold) changed: %s" % out["constants"])
+    elif kind == "new":
         model, spec = answers[0]
         if model != out["res"]:
             diff.append("constructor: model %s impl %s" % (model, out["res"]))
